@@ -15,9 +15,11 @@
                                                tolerates unsorted chromosome keys succeeds and its content passes
                                                the oracle (the file's only defect is the key order), else 0
    entries: 0 model line, 1 oracle on (case, implementation line), 2 pass A on (bytes),
-            3 pass B on (bytes ((off size (bytes)) ...)), 4 the same with the lenient decoder. *)
+            3 pass B on (bytes ((off size (bytes)) ...)), 4 the same with the lenient decoder,
+            7 pass Z on (bytes cap extra lenient): ranges + every block inflated by Spec/Inflate.zlib_decode + decode,
+            8 zlib_decode_res on (bytes), 9 zlib_store on (bytes). *)
 From BT Require Import Base.Util Base.Sexp Base.LE Base.Float Generated.Consts Model.RTree Model.BBIFile Model.BigWigWrite
-  Model.BigWigWriteZ Model.EntryBBI Model.BigBedWrite Model.EntryBed Spec.FormatDecode.
+  Model.BigWigWriteZ Model.EntryBBI Model.BigBedWrite Model.EntryBed Spec.FormatDecode Spec.Inflate.
 Local Open Scope N_scope.
 
 (* ---------- content <-> sexp ---------- *)
@@ -52,6 +54,56 @@ Definition pass_b (arg : sexp) : sexp :=
 Definition pass_b_lenient (arg : sexp) : sexp :=
   sDecoded (decode_lenient (getBytes (nthS 0 arg)) (table_inflate (get_table (nthS 1 arg)))).
 
+
+(* ---------- pass Z: the blocks are inflated by the Coq decoder of Spec/Inflate.v, nothing outside ----------
+   arg = (bytes cap extra lenient)
+     cap      0: inflate every block; c > 0: blocks of more than c compressed bytes are left to [extra]
+     extra    ((off size (bytes)) ...) inflated bytes supplied from outside for blocks over the cap
+     lenient  1: when the strict decoder refuses the file, also run the one tolerating unsorted chromosome keys
+   answer = (1) when the indices cannot be read, else
+     (0 ubuf ((off size 0 (bytes)) | (off size 1 class) | (off size 2) ...) decoded lenient)
+        per block range, in index order: inflated by zlib_decode / refused by it with its error class / over the cap;
+        decoded = Spec/FormatDecode.decode with exactly these blocks as the inflate oracle; lenient = () or (decoded') *)
+Definition zres_at (img : list N) (off size : N) : res (list N) :=
+  match slice img off (N.to_nat size) with
+  | Some blk => zlib_decode_res blk
+  | None => Err E_TRUNC
+  end.
+Definition pass_z (arg : sexp) : sexp :=
+  let img := getBytes (nthS 0 arg) in
+  let cap := getN (nthS 1 arg) in
+  let extra := get_table (nthS 2 arg) in
+  let len := getB (nthS 3 arg) in
+  match block_ranges img with
+  | None => L [A 1%Z]
+  | Some (ubuf, rs) =>
+      let blocks :=
+        if ubuf =? 0 then []
+        else map (fun r => (r, if (cap =? 0) || (snd r <=? cap) then Some (zres_at img (fst r) (snd r)) else None)) rs in
+      let table :=
+        flat_map (fun b => match snd b with Some (Ok d) => [(fst b, d)] | _ => [] end) blocks ++ extra in
+      let inf := table_inflate table in
+      let d := decode img inf in
+      L [A 0%Z; sN ubuf;
+         sList (fun b => match snd b with
+                         | Some (Ok d) => L [sN (fst (fst b)); sN (snd (fst b)); A 0%Z; sBytes d]
+                         | Some (Err e) => L [sN (fst (fst b)); sN (snd (fst b)); A 1%Z; sN e]
+                         | Some _ => L [sN (fst (fst b)); sN (snd (fst b)); A 3%Z]
+                         | None => L [sN (fst (fst b)); sN (snd (fst b)); A 2%Z]
+                         end) blocks;
+         sDecoded d;
+         match d with
+         | Some _ => L []
+         | None => if len then L [sDecoded (decode_lenient img inf)] else L []
+         end]
+  end.
+Definition zlib_vector (arg : sexp) : sexp :=
+  match zlib_decode_res (getBytes arg) with
+  | Ok d => L [A 0%Z; sBytes d]
+  | Err e => L [A 1%Z; sN e]
+  | Panic => L [A 2%Z]
+  | Fuel => L [A 3%Z]
+  end.
 
 (* ---------- diagnosis: which stage of the decoder rejects a file (debugging aid for replays) ---------- *)
 Definition sSome {X} (o : option X) : sexp := match o with Some _ => A 1%Z | None => A 0%Z end.
@@ -271,5 +323,8 @@ Definition dispatch (k : Z) (arg : sexp) : sexp :=
   | 3 => pass_b arg
   | 4 => pass_b_lenient arg
   | 6 => diagnose arg
+  | 7 => pass_z arg
+  | 8 => zlib_vector arg
+  | 9 => sBytes (zlib_store (getBytes arg))
   | _ => L [A (-1)%Z]
   end%Z.
